@@ -595,7 +595,18 @@ func GenC04(r *hx.Rand, thorough bool) History {
 		case x < 88: // local state directory lost while down
 			h.Ops = append(h.Ops, Op{K: "down"})
 			h.Ops = append(h.Ops, downActivity(r, ps)...)
-			h.Ops = append(h.Ops, Op{K: "resetmeta"}, Op{K: "up"})
+			h.Ops = append(h.Ops, Op{K: "resetmeta"})
+			if r.Chance(50) {
+				// the replica cannot be read during the first initialisation after the loss (the baseline
+				// cannot be fetched), then the fault goes away
+				h.Ops = append(h.Ops, Op{K: "breakremote"}, Op{K: "up"}, Op{K: "sync"})
+				if r.Chance(50) {
+					h.Ops = append(h.Ops, Op{K: "sync"})
+				}
+				h.Ops = append(h.Ops, Op{K: "fixremote"})
+			} else {
+				h.Ops = append(h.Ops, Op{K: "up"})
+			}
 		case x < 94: // run-time reset (auto-recover)
 			if r.Chance(50) {
 				// the replica lags the local files (DB.Sync without Replica.Sync) and litestream restarts the WAL before the reset
